@@ -28,6 +28,21 @@ func Getpid() int { return int(identDraw("pid", 4242)%4194304) + 1 }
 // Getppid replaces os.Getppid.
 func Getppid() int { return int(identDraw("ppid", 4241)%4194304) + 1 }
 
+// Hostname replaces os.Hostname.
+func Hostname() (string, error) {
+	v := identDraw("hostname", 0)
+	if v == 0 {
+		return "simhost", nil
+	}
+	return "host-" + itoa(v%100000), nil
+}
+
+// Getuid and friends replace os.Getuid / Geteuid / Getgid / Getegid.
+func Getuid() int  { return int(identDraw("uid", 1000) % 60000) }
+func Geteuid() int { return int(identDraw("uid", 1000) % 60000) }
+func Getgid() int  { return int(identDraw("gid", 1000) % 60000) }
+func Getegid() int { return int(identDraw("gid", 1000) % 60000) }
+
 // RandUint64 is the base of the math/rand top-level function shims.
 func RandUint64() uint64 { return identDraw("rand", 0x5eed5eed5eed5eed) }
 
